@@ -46,32 +46,18 @@ def _rx_shape(cls: ast.ClassDef) -> int:
 
 
 def _hop_shape(fn: ast.FunctionDef) -> int:
-    """every `frame.decrement_ttl()` is followed by the TTL test, then the header rewrite, then `network_interface.send_frame(frame)`;
-    no send_frame without it."""
-    found = []
+    """the constant K of the one `decrement; if ttl < K: drop` sequence of a router forwarding method.  SEMANTIC since round 7b: read off
+    the statement-by-statement translation (harness/extract/forward_route.py: any equivalent spelling of the test — `<= 0`, `not ttl >= 1`,
+    with or without `frame.ip and` — gives the same K); that a send happens only after a tested decrement and both header writes is
+    `C08_gen_route_frame_hops`, proved about the translated programs."""
+    import re
 
-    def walk(stmts):
-        for i, s in enumerate(stmts):
-            if _is_call(s, "frame.decrement_ttl()"):
-                k = _ttl_test(stmts[i + 1]) if i + 1 < len(stmts) else None
-                if k is None:
-                    raise ValueError(f"{fn.name}: decrement not followed by the TTL test")
-                rest = [ast.unparse(x) for x in stmts[i + 2:]]
-                if not any(r == "network_interface.send_frame(frame)" for r in rest):
-                    raise ValueError(f"{fn.name}: no send_frame after the TTL test")
-                found.append(k)
-            elif _is_call(s, "network_interface.send_frame(frame)"):
-                prior = [x for x in stmts[:i] if _is_call(x, "frame.decrement_ttl()")]
-                if not prior:
-                    raise ValueError(f"{fn.name}: send_frame without a preceding decrement in the same block")
-            for attr in ("body", "orelse"):
-                sub = getattr(s, attr, None)
-                if isinstance(sub, list) and sub and isinstance(sub[0], ast.stmt):
-                    walk(sub)
-    walk(fn.body)
-    if len(found) != 1:
-        raise ValueError(f"{fn.name}: expected exactly one decrement/test/send sequence, found {len(found)}")
-    return found[0]
+    from harness.extract.forward_route import _translate
+    prog = _translate(fn, fn.name == "process_frame")
+    ks = re.findall(r"FProg\.decTtl \(FProg\.ifTtlLt \((-?\d+)\)", prog)
+    if len(ks) != 1 or prog.count("FProg.decTtl") != 1:
+        raise ValueError(f"{fn.name}: expected exactly one decrement followed by its TTL test, found {prog.count('FProg.decTtl')} decrement(s), {len(ks)} tested")
+    return int(ks[0])
 
 
 NAMES = {"prefix_len": "p", "longest_prefix": "l", "route.metric": "m", "lowest_metric": "lo"}
